@@ -134,5 +134,9 @@ fixed('F37', 'C15', '30e65c9', "optimizer='optimize' with optimize_priority='wei
 fixed('F08', 'C04', 'fd37add', 'ResourcePeriodicallyUnavailable(W, [(2,4)], period=5): a 6-long task at 4 was admitted although it covers [7,9) (only the folded start was compared with the interval)')
 fixed('F36', 'C04', '203b612', 'ResourcePeriodicallyInterrupted(W, [(2,4)], period=5): a 4-long fixed-duration task at 4 was admitted although it covers [7,8)')
 fixed('F42', 'C04', 'f15b4a5', 'ResourcePeriodicallyInterrupted(W, [(1,3)], period=5, start=10): a task pinned at 0 (last busy interval of the worker) switched the constraint off for another task at [11,13)')
+fixed('F12', 'C05', 'fe2de03', 'an optional task with work_amount > 0 and a required worker could not be left unscheduled (the work was due anyway): valid schedules lost')
+fixed('F09', 'C05', '93ef46e', 'WorkLoad(W, {(3,6): 5}, max) rejected an 8-long task at 1 whose load in the window is 3: the three overlap cases that match a covering interval ask for three different values')
+fixed('F29', 'C05', '322c6d3', 'TasksDontOverlap rejected two zero-duration tasks at the same instant (Xor of the two orders)')
+fixed('F31', 'C05', '30d6fcd', 'UnorderedTaskGroup / OrderedTaskGroup with a time window could not contain an optional task left unscheduled (start >= group start asserted for its negative date)')
 json.dump({'findings': F}, open('/verif/known_findings.json', 'w'), indent=1)
 print(len(F), 'findings written')
